@@ -5,7 +5,8 @@
 //   c32_xml_replay <seed> <class> [count]        class: plain | hexref
 //        plain : random values over  " ' & < > control characters, '#', 'x', ';', digits, letters, blanks in which
 //                every occurrence of the three characters "&#x" is broken up (no hexadecimal pass-through possible)
-//        hexref: values that contain "&#x" (well-formed references such as &#x41; and malformed ones)
+//        hexref: values that contain "&#x": malformed sequences (must round-trip exactly) and well-formed references such
+//                as &#x41; (documented pass-through: written unchanged, expected to be re-read DECODED)
 //      (1) TiXmlBase::EncodeString(value, &out, keepQuotes) against the specification encoder written below
 //          (strict: concatenation of enc(c); and the clauses "no raw < >", "no raw quote unless keepQuotes",
 //           "every & starts one of the five entities or &#xHH; of a control character"),
@@ -37,10 +38,36 @@ static std::string unesc(const char* s) {
   }
   return r;
 }
-// specification encoder (from the property: characters needing escapes are escaped, everything else copied)
+// length of a well-formed hexadecimal character reference "&#x<hexdigits>;" at v[i], or 0
+static size_t hexRefLen(const std::string& v, size_t i) {
+  if (v.compare(i, 3, "&#x") != 0) return 0;
+  size_t j = i + 3;
+  while (j < v.size() && isxdigit((unsigned char)v[j])) ++j;
+  return (j > i + 3 && j < v.size() && v[j] == ';') ? j + 1 - i : 0;
+}
+// what the READER makes of a value that contains well-formed hexadecimal references (documented TinyXML pass-through:
+// such a reference is written unchanged and re-read decoded)
+static std::string decodeRefs(const std::string& v) {
+  std::string r;
+  for (size_t i = 0; i < v.size(); ) {
+    size_t n = hexRefLen(v, i);
+    if (!n) { r += v[i++]; continue; }
+    unsigned long cp = strtoul(v.substr(i + 3, n - 4).c_str(), 0, 16);
+    if (cp < 0x80) r += (char)cp;
+    else if (cp < 0x800) { r += (char)(0xC0 | (cp >> 6)); r += (char)(0x80 | (cp & 0x3F)); }
+    else { r += (char)(0xE0 | (cp >> 12)); r += (char)(0x80 | ((cp >> 6) & 0x3F)); r += (char)(0x80 | (cp & 0x3F)); }
+    i += n;
+  }
+  return r;
+}
+// specification encoder (from the property: characters needing escapes are escaped, everything else copied;
+// documented exception: a well-formed hexadecimal character reference is passed through)
 static std::string specEnc(const std::string& v, bool keepQuotes) {
   std::string r; char b[16];
-  for (unsigned char c : v) {
+  for (size_t i = 0; i < v.size(); ++i) {
+    unsigned char c = v[i];
+    size_t n = hexRefLen(v, i);
+    if (n) { r += v.substr(i, n); i += n - 1; continue; }
     if (c == '&') r += "&amp;"; else if (c == '<') r += "&lt;"; else if (c == '>') r += "&gt;";
     else if (c == '"' && !keepQuotes) r += "&quot;"; else if (c == '\'' && !keepQuotes) r += "&apos;";
     else if (c < 32) { snprintf(b, 16, "&#x%02X;", (unsigned)c); r += b; }
@@ -51,8 +78,7 @@ static std::string specEnc(const std::string& v, bool keepQuotes) {
 static bool entityAt(const std::string& o, size_t k) {
   static const char* ents[] = {"&amp;", "&lt;", "&gt;", "&quot;", "&apos;"};
   for (auto e : ents) if (o.compare(k, strlen(e), e) == 0) return true;
-  if (o.size() >= k + 6 && o[k+1] == '#' && o[k+2] == 'x' && (o[k+3] == '0' || o[k+3] == '1') && isxdigit((unsigned char)o[k+4]) && o[k+5] == ';') return true;
-  return false;
+  return hexRefLen(o, k) > 0;
 }
 static std::string clauseCheck(const std::string& o, bool keepQuotes) {
   for (size_t k = 0; k < o.size(); ++k) {
@@ -61,7 +87,7 @@ static std::string clauseCheck(const std::string& o, bool keepQuotes) {
     if (c == '>') return "raw '>' in the output";
     if (!keepQuotes && c == '"') return "raw '\"' in the output although keepQuotes==false";
     if (!keepQuotes && c == '\'') return "raw ''' in the output although keepQuotes==false";
-    if (c == '&' && !entityAt(o, k)) return "'&' in the output that starts neither one of the five entities nor &#xHH; of a control character";
+    if (c == '&' && !entityAt(o, k)) return "'&' in the output that starts neither one of the five entities nor a well-formed &#x<hexdigits>; reference";
   }
   return "";
 }
@@ -91,6 +117,8 @@ static void checkAttrPrint(const std::string& v) {
   std::string o(out);
   bool ok = o.size() >= 4 && o.compare(0, 2, "a=") == 0 && (o[2] == '"' || o[2] == '\'') && o[o.size()-1] == o[2];
   if (ok) { std::string body = o.substr(3, o.size() - 4); ok = body.find(o[2]) == std::string::npos; }
+  if (ok && (o[2] == '"') != (v.find('"') == std::string::npos))
+    mismatch("Attribute::Print delimiter convention", "value [" + esc(v) + "] written as [" + esc(o) + "]: double quotes are to be used unless the value contains one");
   if (!ok) mismatch("Attribute::Print delimiter", "value [" + esc(v) + "] written as [" + esc(o) + "]: the chosen delimiter occurs unescaped inside the value text");
 }
 // (3) documents
@@ -113,10 +141,10 @@ static void checkDocument(const std::vector<Item>& items) {
         const Item& it = items[k];
         for (auto& a : it.attrs) {
           std::string got = p->hasAttribute(a.first) ? std::string(p->getRequiredAttributeValue(a.first)) : std::string("<attribute missing>");
-          if (got != a.second) mismatch("round trip (attribute)", std::string(compact ? "compact" : "pretty") + " value [" + esc(a.second) + "] re-read as [" + esc(got) + "]");
+          if (got != decodeRefs(a.second)) mismatch("round trip (attribute)", std::string(compact ? "compact" : "pretty") + " value [" + esc(a.second) + "] re-read as [" + esc(got) + "]");
         }
         std::string gt = p->getValue();
-        if (gt != it.text) mismatch("round trip (element text)", std::string(compact ? "compact" : "pretty") + " text [" + esc(it.text) + "] re-read as [" + esc(gt) + "]");
+        if (gt != decodeRefs(it.text)) mismatch("round trip (element text)", std::string(compact ? "compact" : "pretty") + " text [" + esc(it.text) + "] re-read as [" + esc(gt) + "]");
       }
       if (k != items.size()) mismatch("round trip (structure)", "wrote " + std::to_string(items.size()) + " elements, re-read " + std::to_string(k));
     } catch (const std::exception& ex) {
@@ -144,9 +172,9 @@ static std::string randomValue(bool hexref, bool forText) {
   // break up every "&#x" (plain class)
   for (size_t p; (p = v.find("&#x")) != std::string::npos; ) v[p + 2] = 'y';
   if (hexref) {
-    static const char* refs[] = {"&#x41;", "&#x", "&#x3c;", "&#x<", "&#x'\"", "&#xzz;", "&#x41", "&#x>;", "&#x\"a;", "&#x&;"};
+    static const char* refs[] = {"&#x41;", "&#x", "&#x3c;", "&#x<", "&#x'\"", "&#xzz;", "&#x41", "&#x>;", "&#x\"a;", "&#x&;", "&#x0041;", "&#x7A;", "&#x;", "&#x4<;"};
     size_t at = v.empty() ? 0 : rnd() % (v.size() + 1);
-    v.insert(at, refs[rnd() % 10]);
+    v.insert(at, refs[rnd() % 14]);
   }
   return v;
 }
@@ -161,7 +189,7 @@ int main(int argc, char** argv) {
     hexref = std::string(argv[2]) == "hexref";
     if (argc > 3) count = atoi(argv[3]);
     if (!hexref) { const char* f[] = {"a\"b", "a'b", "both ' and \"", "<&>", "&#65;", "&#", "&", "x\ty\nz", "'", "\"", "'\"", "a&#y41;"}; for (auto s : f) fixed.push_back(s); }
-    else { const char* f[] = {"&#x41;", "&#x<a", "a&#xzz", "&#x'\"z", "&#x", "a&#x41", "&#x>b;"}; for (auto s : f) fixed.push_back(s); }
+    else { const char* f[] = {"&#x41;", "&#x<a", "a&#xzz", "&#x'\"z", "&#x", "a&#x41", "&#x>b;", "&#x;", "x&#x3C;y"}; for (auto s : f) fixed.push_back(s); }
   }
   size_t nvals = 0;
   for (auto& v : fixed) { checkEncode(v); checkAttrPrint(v); Item it{"e", {{"a", v}}, v}; checkDocument({it}); ++nvals; }
